@@ -358,8 +358,29 @@ class Spec:
                         vals[nm] = (f.form, st.num.rng(f.form))
                 ng = v.variants[0][idx['negative']]
                 vals['negative'] = ng.val if isinstance(ng, VBool) else None
+                # has all input been consumed?  (some byte slice of the caller's frame is provably empty)
+                left = False
+                if st.stack:
+                    fr = st.frames.get(st.stack[-1][0], {})
+                    for lv in fr.values():
+                        if isinstance(lv, VSlice) and lv.elem[0] in ('bytes',) and st.num.rng(lv.len) == (0, 0):
+                            left = True
+                            break
+                am = v.variants[0][idx['ampm']]
+                amv = None
+                if isinstance(am, VAdt) and am.single() is not None:
+                    if am.single() == 0:
+                        amv = 'none'
+                    else:
+                        inner = am.variants[1][0]
+                        if isinstance(inner, VAdt) and inner.single() is not None:
+                            tt = self.facts.types[inner.ty]
+                            amv = [x['name'] for x in tt['variants'] if x['idx'] == inner.single()][0]
+                vals['ampm'] = amv
+                vals['input_consumed'] = left
+                vals['dowcmp'] = st.notes.get('dowcmp', 0)
                 interp.events.append(('assembly', key, tuple(tainted), st.notes.get('clock_reads', 0), vals, st))
-                st.notes['assembled'] = st.notes.get('assembled', ()) + ((tuple(tainted), tuple(sorted((k, v[1]) for k, v in vals.items() if k != 'negative'))),)
+                st.notes['assembled'] = st.notes.get('assembled', ()) + ((tuple(tainted), tuple(sorted((k, v[1]) for k, v in vals.items() if isinstance(v, tuple)))),)
             body = self.facts.bodies[key]
             return [(st, interp.top(st, body['locals'][0]['ty'], 'assembled'))]
         if key in self.summarised and st.stack:
@@ -470,6 +491,10 @@ class Spec:
                         if rhi < 31:
                             st.num.set_hi(s, rhi)
                         return VInt(Form.sym(s), ret.ty)
+            return None
+        if key == 'common::the_month_day_of_days' and len(args) == 2 and isinstance(args[0], VInt):
+            lp = args[1]
+            interp.events.append(('doy', st.num.rng(args[0].form), lp.val if isinstance(lp, VBool) else None))
             return None
         if key.startswith('format::parse_year') and isinstance(ret, VAdt) and ret.single() == 0 and len(args) == 3:
             # Ok((negative, year, rest)): how much text was consumed and whether the year depends on the clock
